@@ -22,11 +22,12 @@ _cache = {}
 _stats = None
 
 
-def fresh(source, compress, labels, consts):
-    key = hashlib.sha1(json.dumps([source, compress, labels, consts], sort_keys=True).encode()).hexdigest()
+def fresh(source, compress, labels, consts, include_dirs=None, text=None):
+    key = hashlib.sha1(json.dumps([source, text, compress, labels, consts, include_dirs], sort_keys=True).encode()).hexdigest()
     if key not in _cache:
         hs = str(1 + int(key[:6], 16) % 4000)
-        p = subprocess.run([sys.executable, FRESH], input=json.dumps({'source': source, 'compress': compress, 'labels': labels, 'constants': consts}).encode(),
+        p = subprocess.run([sys.executable, FRESH], input=json.dumps({'source': source, 'compress': compress, 'labels': labels, 'constants': consts,
+                                                                      'include_dirs': include_dirs}).encode(),
                            stdout=subprocess.PIPE, stderr=subprocess.PIPE, env=env.repo_python_env({'PYTHONHASHSEED': hs}), cwd=env.TMP, timeout=120)
         if p.returncode != 0:
             raise env.HarnessError('fresh interpreter failed: %s' % p.stderr.decode()[-400:])
@@ -82,8 +83,26 @@ def pool(draw):
             names = [ln[:-1] for ln in other.splitlines() if ln.endswith(':') and ' ' not in ln]
             if names:
                 lines.append('dw ' + names[0])
+        own_labels = [ln[:-1] for ln in lines if ln.endswith(':') and ' ' not in ln.strip()]
+        if own_labels and draw(st.booleans()):
+            # the same text as a label-dependent immediate here ...
+            lines += ['li x6, %s' % own_labels[0], 'addi x9, x9, %%lo(%s)' % own_labels[0]]
+        if i > 0 and draw(st.booleans()):
+            # ... and as a CONSTANT of the same name in another program (one program's label is another's constant)
+            other = progs[draw(st.integers(0, i - 1))]
+            names = [ln[:-1] for ln in other.splitlines() if ln.endswith(':') and ' ' not in ln.strip()]
+            names = [n for n in names if n not in own_labels and not any(l.startswith(n + ' =') for l in lines)]
+            if names:
+                lines = ['%s = %d' % (names[0], draw(st.sampled_from([8, 0, 2047, 40000])))] + lines + ['li x6, %s' % names[0], 'addi x9, x9, %%lo(%s)' % names[0]]
+        if draw(st.integers(0, 2)) == 0:
+            # shared include file that itself includes a definitions file only reachable through the include directory option
+            lines = ['include lib.asm'] + lines + ['li x7, CHIP_BASE']
         progs.append('\n'.join(lines) + '\n')
     return progs
+
+
+LIB_ASM = 'LIB_K = 3\ninclude chip.asm\nlib_entry:\naddi x5, x5, LIB_K\n'
+CHIP_ASM = 'CHIP_BASE = 0x40021000\nCHIP_IRQ = 19\n'
 
 
 class History(RuleBasedStateMachine):
@@ -103,18 +122,39 @@ class History(RuleBasedStateMachine):
 
     @initialize(progs=pool())
     def setup(self, progs):
-        self.pool = progs
+        self.setup_files(progs)
 
-    def _call(self, i, compress, mode):
-        src = self.pool[i % len(self.pool)]
+    def setup_files(self, progs):
+        import tempfile
+        self.pool = progs
+        self.dir = tempfile.mkdtemp(prefix='bbv-c16-', dir=env.TMP)
+        os.makedirs(os.path.join(self.dir, 'src'))
+        os.makedirs(os.path.join(self.dir, 'defs'))
+        with open(os.path.join(self.dir, 'src', 'lib.asm'), 'w') as f:
+            f.write(LIB_ASM)
+        with open(os.path.join(self.dir, 'defs', 'chip.asm'), 'w') as f:
+            f.write(CHIP_ASM)
+        self.paths = []
+        for i, text in enumerate(progs):
+            p = os.path.join(self.dir, 'src', 'p%d.asm' % i)
+            with open(p, 'w', encoding='utf-8') as f:
+                f.write(text)
+            self.paths.append(p)
+
+    def _call(self, i, compress, mode, incdirs=False):
+        text = self.pool[i % len(self.pool)]
+        src = self.paths[i % len(self.pool)]
+        include_dirs = [os.path.join(self.dir, 'defs')] if incdirs else None
         if mode == 'none':
             lin, cin = None, None
         elif mode == 'fresh':
             lin, cin = {}, {}
         else:
             lin, cin = {'test': 0, 'near': 0, 'far': 0x20000000}, {'PRESET': 7}
-        ref = fresh(src, compress, copy.deepcopy(lin), copy.deepcopy(cin))
+        ref = fresh(src, compress, copy.deepcopy(lin), copy.deepcopy(cin), include_dirs, text)
         kw = {'compress': compress}
+        if include_dirs is not None:
+            kw['include_dirs'] = include_dirs
         if lin is not None:
             kw['labels'] = lin
             kw['constants'] = cin
@@ -125,7 +165,7 @@ class History(RuleBasedStateMachine):
             got = {'ok': False, 'type': 'AssemblerError', 'message': e.message, 'line': getattr(e.line, 'number', None)}
         except Exception as e:
             got = {'ok': False, 'type': type(e).__name__, 'message': str(e), 'line': None}
-        key = (i % len(self.pool), compress, mode)
+        key = (i % len(self.pool), compress, mode, incdirs)
         if key in [c[0] for c in self.calls]:
             self.repeated = True
         self.calls.append((key, got['ok']))
@@ -138,14 +178,14 @@ class History(RuleBasedStateMachine):
             hist = [(k, ok) for k, ok in self.calls]
             raise env.CaseFailure('history:%s' % ('result' if got['ok'] and ref['ok'] else 'outcome'),
                                   'call %r after history %r gives\n  %s\nbut a fresh interpreter gives\n  %s\n--- source\n%s' % (
-                                      key, hist[:-1][-8:], json.dumps(got)[:400], json.dumps(ref)[:400], src[:500]),
+                                      key, hist[:-1][-8:], json.dumps(got)[:400], json.dumps(ref)[:400], text[:500]),
                                   {'kind': 'history', 'pool': self.pool, 'calls': [list(k) for k, _ in self.calls]})
         if lin is not None:
             self.returned.append([lin, cin, copy.deepcopy(lin), copy.deepcopy(cin)])
 
-    @rule(i=st.integers(0, 5), compress=st.booleans(), mode=st.sampled_from(['none', 'fresh', 'preset']))
-    def assemble(self, i, compress, mode):
-        self._call(i, compress, mode)
+    @rule(i=st.integers(0, 5), compress=st.booleans(), mode=st.sampled_from(['none', 'fresh', 'preset']), incdirs=st.booleans())
+    def assemble(self, i, compress, mode, incdirs):
+        self._call(i, compress, mode, incdirs)
 
     @precondition(lambda self: len(self.calls) > 0)
     @rule(k=st.integers(0, 50))
@@ -175,6 +215,9 @@ class History(RuleBasedStateMachine):
                                   {'kind': 'history', 'pool': self.pool, 'calls': [list(k) for k, _ in self.calls]})
 
     def teardown(self):
+        import shutil
+        if getattr(self, 'dir', None):
+            shutil.rmtree(self.dir, ignore_errors=True)
         if _stats is not None and self.calls:
             _stats.evaluations += 1
             _stats.count('calls', len(self.calls))
@@ -236,6 +279,30 @@ def cli_hashseed_job(seed):
                          {'kind': 'hashseed', 'source': src})
             else:
                 res.nt(env.chash(src))
+        # the same include name in several searched directories (which one wins is not documented, but it must not depend on the
+        # interpreter's hash seed)
+        for k in range(2):
+            dirs = ['first_%d' % k, 'second_%d' % k, 'third_%d' % k, 'zz_%d' % k, 'a_%d' % k]
+            for j, dn in enumerate(dirs):
+                os.makedirs(os.path.join(d, dn), exist_ok=True)
+                with open(os.path.join(d, dn, 'common.asm'), 'w') as f:
+                    f.write('dw 0x%08x\n' % (0x11111111 * (j + 1)))
+            with open(os.path.join(d, 'common.asm'), 'w') as f:
+                f.write('dw 0x99999999\n')
+            with open(os.path.join(d, 'q.asm'), 'w') as f:
+                f.write('include common.asm\naddi x1, x1, %d\n' % k)
+            outs = []
+            argv = sum([['-i', dn] for dn in dirs], [])
+            for hs in ('0', '1', '2', '3', '5', '8', '13', '21', '4242', '99991'):
+                p = subprocess.run(cli + argv + ['-o', 'q.bin', 'q.asm'], cwd=d, env=env.repo_python_env({'PYTHONHASHSEED': hs}),
+                                   stdout=subprocess.PIPE, stderr=subprocess.PIPE, timeout=120)
+                res.evaluations += 1
+                outs.append((p.returncode, open(os.path.join(d, 'q.bin'), 'rb').read() if os.path.exists(os.path.join(d, 'q.bin')) else None))
+            if len(set(outs)) != 1:
+                res.fail('hashseed:include', 'with the same include name in several searched directories the result differs between PYTHONHASHSEED values: %r'
+                         % sorted(set((o[0], o[1].hex() if o[1] else None) for o in outs)), {'kind': 'hashseed', 'source': 'include common.asm'})
+            else:
+                res.nt(env.chash(('ambiguous include', k, seed)))
     return res
 
 
@@ -269,12 +336,16 @@ def replay(path):
         print('replay of hash-seed cases re-runs the job')
         return run('quick')
     m = History()
-    m.pool = c['pool']
+    m.setup_files(c['pool'])
     try:
-        for key in c['calls']:
-            m._call(*key)
-            m.earlier_results_untouched()
-            m.module_tables_unchanged()
+        try:
+            for key in c['calls']:
+                m._call(*key)
+                m.earlier_results_untouched()
+                m.module_tables_unchanged()
+        finally:
+            import shutil
+            shutil.rmtree(m.dir, ignore_errors=True)
     except env.CaseFailure as cf:
         print('VIOLATION property=%s replay=%s' % (PROP, path))
         print('  ' + str(cf.what)[:1200])
